@@ -264,7 +264,7 @@ def gen_sig_scenario(rng, params, sid, quick=True):
     if named and rng.random() < 0.45:
         ignore = rng.sample(named, rng.randint(1, min(2, len(named))))
     compress = rng.choice([False, False, 3, ["gzip", 1]])
-    kind = rng.choice(["def", "def", "method", "method", "nested", "lambda"])
+    kind = rng.choice(["def", "def", "method", "method", "nested", "lambda", "async", "async"])
     sc = {"id": sid, "type": "sig", "params": params, "ignore": ignore, "compress": compress,
           "verbose": rng.choice([0, 0, 1, 2, 11, 60]), "mmap_mode": rng.choice([None, None, None, None, "r", "c"]),
           "picklable": kind in ("def", "method") and rng.random() < 0.6,
@@ -360,8 +360,18 @@ def gen_sig_scenario(rng, params, sid, quick=True):
                 events += [["newprocess"], ["define", 0], ["wrap", 0]]
         elif sc["picklable"] and r < 0.62:
             events.append(["rewrap", 0, rng.choice(["pickle", "pickle", "copy", "deepcopy"])])
+        elif r < 0.70 and kind in ("def", "nested", "async", "lambda"):
+            # the cached function is decorated AGAIN with the same options (a new wrapper around the same function)
+            events.append(["recache", 0, {"ignore": list(ignore)}])
         elif r < 0.44:
             events.append(["wrap", 0])
+    if not multi and rng.random() < 0.25:
+        # a store backend that is not a directory tree (registered through register_store_backend): one process only,
+        # no reduce_size (the object store lists no items), nothing behind joblib's back
+        sc["backend"] = "objstore"
+        sc["mmap_mode"] = None
+        events = [e for e in events if e[0] not in ("evict", "rmentry") and e[-1] != "side"
+                  and not (e[0] == "rewrap" and e[2] in ("dump", "load"))]
     sc["events"] = events
     if multi:
         sc["hashseeds"] = rng.sample(["0", "1", "2", "random", "4242"], 5)
@@ -566,6 +576,47 @@ def fixed_scenarios(prop):
                     "params": [["a", "pk", None], ["b", "pk", None], ["c", "pk", I(12)], ["d", "ko", I(13)]],
                     "ignore": [], "compress": False, "versions": V, "mode": "own", "events": ev})
     if prop in ("C02", "C06"):
+        # the documented store-backend interface on an object store that is not a directory tree
+        ev = [["define", 0], ["wrap", 0]]
+        for pos, kw in (([1], []), ([1, 2], []), ([1], [("b", 2)]), ([], [("b", 2), ("a", 1)]), ([3], []), ([1], [])):
+            ev += [_call(0, pos, kw, kind="check"), _call(0, pos, kw)]
+        ev += [_call(0, [3], kind="shelve"), ["get", 0], ["get", 0], ["clearfunc", 0], _call(0, [1], kind="check"),
+               _call(0, [1]), _call(0, [1])]
+        out.append({"id": "fixed-object-store-backend", "type": "sig", "backend": "objstore", "callback": False,
+                    "params": [["a", "pk", None], ["b", "pk", I(2)]], "ignore": [], "compress": False,
+                    "versions": {"0": {"tag": "v0", "path": "verifmod.py", "pad": 0, "kind": "def"}}, "events": ev})
+        # an async function, decorated again with options: completed calls stay hits
+        ev = [["define", 0], ["wrap", 0], _call(0, [1], kind="check"), _call(0, [1]), _call(0, [1]),
+              ["recache", 0, {"ignore": ["b"]}], _call(0, [1], kind="check"), _call(0, [1]), _call(0, [2]), _call(0, [2]),
+              ["recache", 0, {"ignore": None}], _call(0, [2]), _call(0, [2], kind="shelve"), ["get", 0]]
+        out.append({"id": "fixed-async-redecorated", "type": "sig", "callback": False,
+                    "params": [["a", "pk", None], ["b", "pk", I(0)]], "ignore": ["b"], "compress": False,
+                    "versions": {"0": {"tag": "v0", "path": "verifmod.py", "pad": 0, "kind": "async"}}, "events": ev})
+        # re-decoration WITHOUT options (and Memory.eval) drops the ignore list: calls that differ in the formerly
+        # ignored argument are separate entries with their own values (the function does depend on b here)
+        def cb(a, b, via=None, kind="call"):
+            cs = {"pos": [I(a), I(b)], "kw": []}
+            if via:
+                cs["via"] = via
+            return [kind, 0, cs, True]
+        ev = [["define", 0], ["wrap", 0], cb(1, 7, kind="check"), cb(1, 7), cb(1, 7), cb(2, 7),
+              ["recache", 0, {"ignore": None}],
+              cb(1, 8, kind="check"), cb(1, 8), cb(1, 9), cb(1, 8), cb(1, 7),
+              ["recache", 0, {"ignore": ["b"]}], cb(3, 7), cb(3, 7),
+              cb(3, 5, via="eval"), cb(3, 6, via="eval"), cb(3, 5, via="eval")]
+        out.append({"id": "fixed-redecorated-without-options", "type": "sig", "callback": False, "body_ignore": [],
+                    "params": [["a", "pk", None], ["b", "pk", I(0)]], "ignore": ["b"], "compress": False,
+                    "versions": {"0": {"tag": "v0", "path": "verifmod.py", "pad": 0, "kind": "def"}}, "events": ev})
+        # a shelved reference read several times, the caller mutating what it received in between
+        lst = {"l": [I(1), {"l": [I(2)]}]}
+        dct = {"d": [[{"s": "k"}, {"l": [I(3)]}]]}
+        ev = [["define", 0], ["wrap", 0]]
+        for n, v in enumerate((lst, dct)):
+            cs = {"pos": [v], "kw": []}
+            ev += [["shelve", 0, cs, True], ["get", n], ["get", n], ["call", 0, cs, True], ["get", n]]
+        out.append({"id": "fixed-repeated-get-after-mutation", "type": "sig", "callback": False,
+                    "params": [["a", "pk", None], ["b", "pk", I(0)]], "ignore": [], "compress": False,
+                    "versions": {"0": {"tag": "v0", "path": "verifmod.py", "pad": 0, "kind": "def"}}, "events": ev})
         # callable arguments: bound classmethods of same-named classes (nested / in two modules), same-named
         # functions of two modules, builtins, bound methods of module objects, partials -- each its own entry
         ev = [["define", 0], ["wrap", 0]]
@@ -1002,6 +1053,9 @@ def gen_c12_scenario(rng, sid):
                 events += [["shelve", k, cs, True], ["get", nref]]
             events.append(["call", k, cs, vld])
             called_text = versions[str(k)]["text"]
+            nshelved = sum(1 for e in events if e[0] == "shelve")
+            if nshelved and rng.random() < 0.12:
+                events.append(["get", rng.randrange(nshelved)])     # an EARLIER reference, read (again) now
     sc["events"] = events
     return sc
 
@@ -1129,7 +1183,8 @@ def run_scenario(sc, timeout=300):
                 continue
             job = {"cache": cache, "moddir": moddir, "refs": os.path.join(tmp, "refs.pkl"),
                    "scenario": {k: sc[k] for k in ("versions", "params", "ignore", "compress", "verbose", "mmap_mode",
-                                                   "picklable", "callback", "pids") if k in sc}, "events": seg,
+                                                   "picklable", "callback", "pids", "backend", "body_ignore")
+                                if k in sc}, "events": seg,
                    "segment": nseg}
             p = subprocess.run([common.PYNP if sc.get("py") == "np" else common.PY,
                                 os.path.join(common.ROOT, "harness", "impl", "c02_impl.py")],
@@ -1417,7 +1472,7 @@ def model_terms(sc, res):
             return None
         if t == "hotreload":
             hist.append("Define %d; Wrap %d" % (ev[2], ev[2]))
-        elif t in ("rewrap", "pickled"):
+        elif t in ("rewrap", "pickled", "recache"):
             hist.append("Get 999999")     # the copy has the state of the original: no model event (OSkip)
         elif t == "recode":
             hist.append("Wrap %d" % ev[1])    # an equal code object: the wrapper drops its cached source text
